@@ -13,6 +13,10 @@ CONTRACTS = {
     "Bounds.as_tuple": {"props": ["C01", "C03", "C06", "C07", "C08", "C11", "C12", "C20"],
                         "why": "(lower, upper) in that order - used as axiom by every kernel"},
     "Bounds.__eq__": {"props": ["C10", "C16", "C20"], "why": "bounds compare by (lower, upper)"},
+    "Bounds.__hash__": {"props": ["C10"], "why": "hash consistent with __eq__ (feeds the set / hash keys of validation)"},
+    "variable.__hash__": {"props": ["C10"], "why": "hash over id and bounds: equal definitions hash equally, so identical shared leaves are merged"},
+    "variable.__eq__": {"props": ["C10", "C18"], "why": "equality by id (its adequacy as de-duplication key is judged by E7)"},
+    "variable.__lt__": {"props": ["C10"], "why": "ordering by id (sorted children / flatten)"},
     "variable.__init__": {"props": ["C03", "C04", "C07", "C16"], "group": "E0",
                           "why": "int -> (v,v); Bounds kept; tuple -> Bounds(*t); default (0,1)"},
     "variable.assume": {"props": ["C03", "C07"], "why": "H3: leaf takes fixed[id] if named, else itself"},
@@ -39,6 +43,9 @@ class Bounds:
     def as_tuple(self):
         return (self.lower, self.upper)
 
+    def __hash__(self):
+        return hash(self.lower) + hash(self.upper)
+
     def __eq__(self, obj):
         return (self.lower, self.upper) == (obj.as_tuple() if issubclass(obj.__class__, Bounds) else obj)
 
@@ -62,6 +69,15 @@ class variable:
             if not issubclass(bounds.__class__, (tuple, numpy.ndarray, list)):
                 raise ValueError(f"invalid data type for bounds, got `{bounds.__class__}`")
             self.bounds = Bounds(*bounds)
+
+    def __hash__(self):
+        return hash(self.id) + hash(self.bounds)
+
+    def __lt__(self, other):
+        return self.id < other.id
+
+    def __eq__(self, other):
+        return self.id == getattr(other, "id", other)
 
     def assume(self, fixed):
         return variable(id=self.id, bounds=fixed[self.id]) if self.id in fixed else self
